@@ -114,7 +114,20 @@ fn plan_c13(o: &Opts) -> Vec<GroupSpec> {
       // half of the programs are kept free of lattice observers so that lattice programs get monotone re-runs too
       let mut cfg = GenCfg::core();
       cfg.lat_observers = i % 2 == 0;
-      let mut prog = gen::gen_any(&mut r, &cfg);
+      let mut prog = if i % 5 == 4 {
+         // a program around a BYODS relation: its data structure lives in the program value across runs (there is no
+         // row vector to rebuild it from), so a re-run extends what the previous run left. The stratified readers
+         // (negation, count) are dropped in two of three such programs so that pushes between runs are allowed.
+         let ds = *vcore::rng::Src::pick(&mut r, &[vcore::ast::Ds::EqRel, vcore::ast::Ds::TrRel, vcore::ast::Ds::TrRelUf]);
+         let ternary = vcore::rng::Src::chance(&mut r, 40);
+         let mut p = vcore::gen_ds::gen_byods(&mut r, &cfg, ds, ternary);
+         if i % 3 != 0 {
+            p.rules.retain(|ru| !crate::plans::rule_has_strat(ru));
+         }
+         p
+      } else {
+         gen::gen_any(&mut r, &cfg)
+      };
       for d in prog.rels.iter_mut() {
          if !d.is_lattice && d.ds.is_none() {
             d.is_input = true;
@@ -132,12 +145,24 @@ fn plan_c13(o: &Opts) -> Vec<GroupSpec> {
          m0.labels.push("default_provider_written_out".into());
       }
       let mut members = vec![MemberSpec { prog: prog.clone(), opts: opts_of(Kind::Ascent), meta: m0 }];
-      if gen::par_rejects(&prog).is_none() && i % 2 == 0 {
+      let byods = prog.rels.iter().any(|d| d.ds.is_some());
+      if gen::par_rejects(&prog).is_none() && i % 2 == 0 && !byods {
          members.push(MemberSpec { prog: prog.clone(), opts: opts_of(Kind::AscentPar), meta: meta(&base, "par", Kind::AscentPar, false) });
       }
       out.push(GroupSpec { members });
    }
    out
+}
+
+pub fn rule_has_strat(ru: &vcore::ast::Rule) -> bool {
+   fn items(its: &[vcore::ast::BodyItem]) -> bool {
+      its.iter().any(|it| match it {
+         vcore::ast::BodyItem::Agg { .. } | vcore::ast::BodyItem::Neg { .. } => true,
+         vcore::ast::BodyItem::Disj(ds) => ds.iter().any(|d| items(d)),
+         _ => false,
+      })
+   }
+   items(&ru.body)
 }
 
 /// C14: programs compiled with #![generate_run_timeout], serial and parallel
@@ -324,6 +349,38 @@ fn plan_c09(o: &Opts) -> Vec<GroupSpec> {
    while out.len() < n {
       let mut r = rng_for("C09", o.seed, i);
       i += 1;
+      if i % 6 == 0 {
+         // a program around a BYODS relation whose provider is given program-wide (`#![ds(P)]`), in every position
+         // relative to the instrumentation flags; the other relations name the default provider explicitly
+         let ds = *r.pick(&[vcore::ast::Ds::EqRel, vcore::ast::Ds::TrRel, vcore::ast::Ds::TrRelUf]);
+         let ternary = r.chance(40);
+         let prog = vcore::gen_ds::gen_byods(&mut r, &GenCfg::core(), ds, ternary);
+         let path = match ds {
+            vcore::ast::Ds::EqRel => "ds(::ascent_byods_rels::eqrel)",
+            vcore::ast::Ds::TrRel => "ds(::ascent_byods_rels::trrel)",
+            vcore::ast::Ds::TrRelUf => "ds(::ascent_byods_rels::trrel_uf)",
+         };
+         let base = format!("C09-s{}-{}", o.seed, i - 1);
+         let mut members =
+            vec![MemberSpec { prog: prog.clone(), opts: PrintOpts::plain(Kind::Ascent), meta: meta(&base, "ascent", Kind::Ascent, true) }];
+         for (name, attrs) in [
+            ("program_ds", vec![path]),
+            ("program_ds_then_measure_rule_times", vec![path, "measure_rule_times"]),
+            ("measure_rule_times_then_program_ds", vec!["measure_rule_times", path]),
+            ("generate_run_timeout_then_program_ds", vec!["generate_run_timeout", path]),
+         ] {
+            let mut op = PrintOpts::plain(Kind::Ascent);
+            op.program_ds = true;
+            op.explicit_default_ds = true;
+            op.attrs = attrs.iter().map(|a| a.to_string()).collect();
+            let mut m = meta(&base, name, Kind::Ascent, false);
+            m.attrs = op.attrs.clone();
+            m.labels = vec![format!("packaging:{name}")];
+            members.push(MemberSpec { prog: prog.clone(), opts: op, meta: m });
+         }
+         out.push(GroupSpec { members });
+         continue;
+      }
       let mut prog = gen::gen_any(&mut r, &GenCfg::core());
       if prog.rels.iter().any(|d| d.cols.is_empty()) {
          continue;
@@ -512,7 +569,10 @@ fn plan_ds(o: &Opts, prop: &str, ds: vcore::ast::Ds) -> Vec<GroupSpec> {
          let base = format!("{prop}-s{}-{}", o.seed, i);
          let mut m = meta(&base, "ser", Kind::Ascent, true);
          m.labels = vec![format!("arity={}", if ternary { 3 } else { 2 })];
-         let mut members = vec![MemberSpec { prog: prog.clone(), opts: PrintOpts::plain(Kind::Ascent), meta: m }];
+         // every third program: another attribute in front of the relation's `#[ds(..)]`
+         let mut opts0 = PrintOpts::plain(Kind::Ascent);
+         opts0.doc_before_ds = i % 3 == 1;
+         let mut members = vec![MemberSpec { prog: prog.clone(), opts: opts0, meta: m }];
          if ds == vcore::ast::Ds::EqRel && !ternary && i % 4 == 0 {
             if let Some(kf) = gen::par_rejects(&prog) {
                crate::count_excluded(kf);
